@@ -77,7 +77,7 @@ class BasicBlock:
                     temporaries[i],
                     lambdify(
                         self._arglist + temporaries[:i],
-                        expr,
+                        common.evaluate_large_integers(expr),
                         modules=self._config.python_modules,
                         cse=False,
                     ),
@@ -87,7 +87,7 @@ class BasicBlock:
         self._body = [
             lambdify(
                 self._arglist + temporaries,
-                (
+                common.evaluate_large_integers(
                     simplify(expr)
                     if self._config.common_subexpression_elimination
                     else expr
